@@ -373,6 +373,55 @@ def r_union_first(ck: Checker) -> None:
         ck.violation("R-UNION-FIRST", f, f.node, what, construct=verdict)
 
 
+def r_items_recursive(ck: Checker) -> None:
+    """Inside is_instance the elements of a collection value are checked by is_instance itself: a bare isinstance(item, T) skips the rules
+    is_instance adds to isinstance (a bool is no int, an int is a float).  Positive pattern: `isinstance(<element variable>, ...)` inside
+    a comprehension / loop over the value."""
+    f = ck.repo.func(TYPING, "is_instance")
+    vp = f.node.args.args[0].arg
+    n = 0
+    for fn in [x for x in (f.raw, f.node) if x is not None]:
+        for comp in ast.walk(fn):
+            gens = comp.generators if isinstance(comp, (ast.GeneratorExp, ast.ListComp, ast.SetComp)) else ([comp] if isinstance(comp, ast.For) else [])
+            for g in gens:
+                it = g.iter
+                if not any(isinstance(x, ast.Name) and x.id == vp for x in ast.walk(it)):
+                    continue
+                elems = {t.id for t in ast.walk(g.target) if isinstance(t, ast.Name)}
+                body = [comp.elt] if not isinstance(comp, ast.For) else comp.body
+                for b in body:
+                    for x in ast.walk(b):
+                        if isinstance(x, ast.Call) and dotted(x.func) == "isinstance" and len(x.args) == 2 and isinstance(x.args[0], ast.Name) and x.args[0].id in elems:
+                            n += 1
+                            ck.violation("R-BOOLGUARD-TT", f, x, "is_instance checks the elements of a collection value with is_instance (bool/int and int/float rules included)", positive=True,
+                                         construct=f"is_instance: {norm(x)[:50]} checks an element with bare isinstance — (1, True) passes tuple[int, ...], (1, 2.5) fails tuple[float, ...]")
+                            return
+    ck.holds("R-BOOLGUARD-TT", f, f.node, "is_instance checks the elements of a collection value with is_instance (no bare isinstance on an element)")
+
+
+def r_invalid_types_source(ck: Checker) -> None:
+    """InvalidTypes lists exactly the non-conforming fields of the construction: it is built in the gate of __post_init__ from the
+    checker's result and nowhere else (positive pattern: another function constructs InvalidTypes — e.g. a handler that re-raises with a
+    narrowed list)."""
+    from .state_rules import _raw_functions
+    n = 0
+    for modname in (NODE, "pyoak.visitor", "pyoak.serialize", TYPING):
+        m_ = ck.repo.mod(modname)
+        for q, fn, _cls in _raw_functions(m_):
+            for x in ast.walk(fn):
+                if isinstance(x, ast.Call) and (dotted(x.func) or "").split(".")[-1] == "InvalidTypes":
+                    n += 1
+                    what = "InvalidTypes is constructed only by the type-check gate of ASTNode.__post_init__ (with the complete list of non-conforming fields)"
+                    if modname == NODE and q.split(".")[-1] in ("__post_init__",) or ck.repo.is_new_helper(m_, q) and any(
+                            isinstance(c, ast.Call) and (dotted(c.func) or "").endswith("_check_runtime_types") for c in ast.walk(fn)):
+                        ck.holds("R-GATE", (m_.rel, q), x, what)
+                    else:
+                        ck.violation("R-GATE", (m_.rel, q), x, what, positive=True,
+                                     construct=f"{q}: {norm(x)[:50]} — the error a caller sees no longer names exactly the non-conforming fields of the node that was built")
+    if n == 0:
+        ck.incomplete("R-GATE", None, None, "no construction of InvalidTypes found (1 confirmed by hand)")
+
+
 def r_member_by_eq(ck: Checker) -> None:
     """`value in C` inside is_instance: the candidate is an arbitrary object (a list given for a Literal field).  Membership in a tuple or
     list compares with ==; membership in a set / frozenset / dict hashes the candidate first and raises TypeError for an unhashable one, so
@@ -428,6 +477,11 @@ def run(ck: Checker) -> None:
     ck.guard("R-NORMALISE", lambda: r_normalise(ck))
     ck.guard("R-UNION-FIRST", lambda: r_union_first(ck))
     ck.guard("R-BOOLGUARD-TT", lambda: r_member_by_eq(ck))
+    ck.guard("R-BOOLGUARD-TT", lambda: r_items_recursive(ck))
+    ck.guard("R-GATE", lambda: r_invalid_types_source(ck))
+    from . import state_rules as S13
+    ck.guard("R-GATE", lambda: S13.r_iter_stored(ck, "R-GATE", ("pyoak.node", "pyoak.typing", "pyoak.types")))
+    ck.guard("R-BOOLGUARD-TT", lambda: S13.r_memo_keeps_alive(ck, "R-BOOLGUARD-TT", (TYPING, NODE), "the value of a field is checked each time it is given"))
     from . import state_rules as S_
     ck.guard("R-GATE", lambda: S_.r_unstable_key(ck, "R-GATE", [(NODE, "_check_runtime_types"), (TYPING, "is_instance")], "each construction is checked on its own values"))
     from . import state_rules as S
